@@ -33,14 +33,23 @@ type mySQLUndoInsertExecutor struct {
 
 // newMySQLUndoInsertExecutor init
 func newMySQLUndoInsertExecutor(sqlUndoLog undo.SQLUndoLog) *mySQLUndoInsertExecutor {
-	return &mySQLUndoInsertExecutor{sqlUndoLog: sqlUndoLog}
+	return &mySQLUndoInsertExecutor{
+		sqlUndoLog:   sqlUndoLog,
+		BaseExecutor: &BaseExecutor{sqlUndoLog: sqlUndoLog, undoImage: sqlUndoLog.AfterImage},
+	}
 }
 
 // ExecuteOn execute insert undo logic
 func (m *mySQLUndoInsertExecutor) ExecuteOn(ctx context.Context, dbType types.DBType, conn *sql.Conn) error {
 
-	if err := m.BaseExecutor.ExecuteOn(ctx, dbType, conn); err != nil {
+	// the rows are removed only while they still are what the branch inserted; rows that
+	// are gone already need nothing, rows somebody else changed since are left alone
+	ok, err := m.BaseExecutor.dataValidationAndGoOn(ctx, conn)
+	if err != nil {
 		return err
+	}
+	if !ok {
+		return nil
 	}
 
 	// build delete sql
